@@ -7,7 +7,15 @@ extents, every raw blossom (transfer-matrix entry before normalisation) and ever
 Oracle: exact rational convolution integral (PsV.ConvSpec.specConv, independent of blossoming) at the evaluation
 points; |C++ value - spec| <= K * 2^-24 * S.  Exact side check: the table produced by the model at Rat, evaluated
 exactly, equals the spec exactly (Strøm's identity; a theorem since the deepening round — driver_exact_check_holds —
-kept as run-time validation of its hypotheses and of the driver)."""
+kept as run-time validation of its hypotheses and of the driver).
+Input classes: besides irregular / integer / short-dyadic knots (pairwise sums either all distinct or bit-equal) the
+harness draws a GRID family: table and kernel knots on a common grid with a non-dyadic step (m*0.1, accumulated v += h,
+shifted a + m*h, scaled s*(m*h), irregular subsets of grid nodes, kernels from grid nodes / differences of table knots /
+half, third and double grid / mixed with off-grid knots / perturbed by a few ulp), so that pairwise sums which coincide
+mathematically are partly bit-equal and partly one or two ulp apart.  The doubles are taken as given: specification and
+exact model work with the exact rationals of the stored knots (there the sums are distinct, very close numbers); the
+expected knot vector is the sorted IEEE sums, compared exactly.  Evaluation points include knots inside such clusters
+and the doubles adjacent to a knot.  (Seeded change C14-4: snapping nearly equal sums to duplicates.)"""
 import json, os, struct
 from fractions import Fraction
 
@@ -95,12 +103,18 @@ def compare(ctx, cases, impl, model, state, tag):
             if dims_i[4*j+3] != st: shape_bad = "stride[%d] = %d is not row-major (%d)" % (j, dims_i[4*j+3], st)
             st *= na[j]
         kn = [dbl(z) for z in si["kn"]]; p = 0
+        rho_f = None
         for j, d in enumerate(case["dims"]):
             nkn = dims_i[4*j+1]; ks = kn[p:p+nkn]; p += nkn
             if j == dim:
                 sums = sorted(a + b for a in d["knots"] for b in case["kernel_knots"])
+                rho_f = sums
                 if ks != sums: shape_bad = shape_bad or "knot vector of the convolved dimension is not the sorted pairwise sums"
             elif ks != d["knots"]: shape_bad = shape_bad or "knots of dimension %d changed" % j
+        ex_, nr_ = near_coincident(rho_f) if rho_f is not None else (0, 0)
+        if nr_: state["near_cases"] += 1
+        if nr_ and ex_: state["near_and_exact_cases"] += 1
+        state["near_pairs"] += nr_
         state["evals"] += 1
         if shape_bad:
             ctx.report("shape", {"case": case, "case_line": c, "impl_dims": si["dims"], "line": n}, "C14 shape: " + shape_bad)
@@ -135,6 +149,7 @@ def compare(ctx, cases, impl, model, state, tag):
             bound = K * EPS * Sf
             if Sf != 0 and err is not None:
                 r = float(err / (EPS * Sf))
+                if nr_ and r > state["max_ratio_near"]: state["max_ratio_near"] = r
                 if r > state["max_ratio"]: state["max_ratio"] = r; state["max_ratio_at"] = {"orders": [d["order"] for d in case["dims"]], "dim": dim, "n": nk, "x": case["points"][j], "K": K}
             # operator() works in float: its own envelope is C01's business; sanity only (same table, same point)
             if err is None or err > bound:
@@ -143,6 +158,10 @@ def compare(ctx, cases, impl, model, state, tag):
                 # pure round-off of the modelled operation sequence: the C++ is bit-identical to the model at F32 *and*
                 # the same model in exact arithmetic equals the exact integral for this very input
                 if sig == "value" and not (set(tie_bad) & {"dims", "kn", "bl", "co"}) and ex == spec and err is not None: sig = "roundoff-amplification"
+                if sig == "roundoff-amplification" and len(state["roundoff_cases"]) < 40:
+                    state["roundoff_cases"].append({"line": n, "orders": [d["order"] for d in case["dims"]], "dim": dim, "n": nk, "x": case["points"][j][dim],
+                                                    "err_over_eps_S": float(err / (EPS * Sf)) if Sf != 0 else None, "K": K,
+                                                    "nearly_coinciding_sums": near_coincident(rho)[1], "kernel_knots": case["kernel_knots"]})
                 ctx.report(sig, {"case": case, "case_line": c, "x": case["points"][j], "impl_value": vd, "spec": float(spec), "S": float(S), "K": K, "all_coefficients_zero": allzero, "line": n,
                                  "replay_cmd": "python3 bin/check.py C14 --replay <this file>"},
                            "C14: convolved table at x=%r gives %r, exact convolution integral is %r (|diff| = %.3g > %d*2^-24*S = %.3g)%s" % (
@@ -179,8 +198,16 @@ def run_files(ctx, exe, ncases, npts, tag, state, replay_case=None):
     compare(ctx, cases, impl, model, state, tag)
     return st
 
+def near_coincident(rho):
+    """(number of adjacent bit-equal sorted sums, number of adjacent sums within 8 ulp that are not equal)"""
+    ex = nr = 0
+    for a, b in zip(rho, rho[1:]):
+        if a == b: ex += 1
+        elif b - a <= 8 * 2.0**-52 * max(abs(a), abs(b)): nr += 1
+    return ex, nr
+
 def new_state():
-    return {"evals": 0, "seen": set(), "max_ratio": 0.0, "max_ratio_at": None, "exact_mismatch": 0, "skipped_repeated_knot": 0}
+    return {"roundoff_cases": [], "near_cases": 0, "near_and_exact_cases": 0, "near_pairs": 0, "max_ratio_near": 0.0, "evals": 0, "seen": set(), "max_ratio": 0.0, "max_ratio_at": None, "exact_mismatch": 0, "skipped_repeated_knot": 0}
 
 def finish_cov(ctx, state, dist):
     if not ctx.tie_ok and ctx.broken:
@@ -196,12 +223,20 @@ def finish_cov(ctx, state, dist):
     ctx.coverage["max_error_over_2^-24_S"] = state["max_ratio"]
     ctx.coverage["max_error_at"] = state["max_ratio_at"]
     ctx.coverage["points_on_repeated_new_knot_skipped"] = state["skipped_repeated_knot"]
+    ctx.coverage["known_finding_roundoff_cases"] = state["roundoff_cases"]
+    ctx.coverage["cases_with_nearly_coinciding_pairwise_sums"] = state["near_cases"]
+    ctx.coverage["cases_with_nearly_and_exactly_coinciding_pairwise_sums"] = state["near_and_exact_cases"]
+    ctx.coverage["adjacent_sums_within_8ulp_not_equal"] = state["near_pairs"]
+    ctx.coverage["max_error_over_2^-24_S_in_cases_with_nearly_coinciding_sums"] = state["max_ratio_near"]
+    if ctx.tier in ("quick", "thorough") and state["evals"] > 200 and state["near_cases"] < 10:
+        ctx.note("only %d cases with nearly coinciding pairwise sums were generated (grid family of harness/c14_harness.cpp)" % state["near_cases"])
     ctx.coverage["envelope"] = "|ndsplineeval<double>(convolved table, x) - specConv(x)| <= K * 2^-24 * S, K = naxes_old[dim] + 4, S = specConv with |coefficients| (+ 2^-16 of the largest S of the case as absolute floor)"
     ctx.assumptions += [
         "table knots in the convolved dimension and kernel knots strictly increasing and finite (divided differences divide by knot differences); n >= 2 kernel knots",
         "order + n - 1 <= 12 so that the unsigned factorials do not wrap (factorialC is modelled mod 2^32 and compared for n <= 16)",
         "coefficient envelope K = naxes_old + 4 single-precision roundings (float accumulation over the old axis, float storage); double-precision error of the blossoms is not bounded by a theorem, only observed (max ratio in coverage)",
         "the identity 'blossom transfer matrix = convolution' (Strøm) is a Lean theorem (blossom_is_convolution: exact arithmetic, row-major well-formed table, strictly increasing knots, n >= 2, order+n-1 <= 12, point in the new knot range); the exact Rat comparison on sampled cases remains as validation of these hypotheses; nothing is proved about double/float round-off",
+        "the doubles of knots and kernel are taken as given: pairwise sums that coincide on a decimal grid only up to round-off are distinct knots, one or two ulp apart, for code, model and specification alike (exact rationals of the stored doubles); nothing is assumed about what the caller 'meant'",
         "std::sort is modelled by List.mergeSort: equal doubles are bit-identical (no -0 sums are generated), so the sorted sequence is unique"]
 
 def run(ctx):
